@@ -156,6 +156,22 @@ for _w in ["qq"] + grammar_words():
         FAULTS[f"unknown-name:{_w}:{_pos}"] = [t.format(w=_w) for t in _tpl]
 
 
+# unknown name, the declaration's own name: the name being declared is not in scope inside its own initialiser, whatever the form of the declaration
+# (untyped, typed, const) and wherever in the initialiser it occurs; nor is a name that is only declared further down
+SELF_DECLS = {"untyped": "{n} = {e}", "typed": "{n}: {t} = {e}", "const": "const {n} = {e}", "const-typed": "const {n}: {t} = {e}"}
+SELF_INITS = {"operand": ("int", "{n} + 1"), "right-operand": ("int", "1 + {n}"), "bare": ("int", "{n}"), "argument": ("int", "f({n})"), "index": ("int", "l[{n}]"),
+              "negated": ("int", "-{n}"), "parenthesised": ("int", "({n}) * 2"), "element": ("[int...]", "[1, {n}.len()]"), "optional": ("int?", "{n}"),
+              "str-concat": ("str", '{n} + "a"'), "bool-not": ("bool", "!{n}"), "or-fallback": ("int", "(o) or {n}"), "compare": ("bool", "{n} == 1"),
+              "closure-body": ("fn() -> int", "fn() -> int {{\n\treturn {n}()\n}}"), "closure-read": ("fn() -> int", "fn() -> int {{\n\treturn 1 + l[{n}.len()]\n}}"),
+              "method-receiver": ("int", "{n}.abs()"), "nested-list": ("[[int...]...]", "[[1], {n}[0]]")}
+for _dk, _dt in SELF_DECLS.items():
+    for _ik, (_ty, _ie) in SELF_INITS.items():
+        FAULTS[f"self-reference:{_dk}:{_ik}"] = _dt.format(n="srn", t=_ty, e=_ie.format(n="srn")).split("\n")
+FAULTS["use-before-declaration"] = ["ub1 = later1 + 1", "later1 = 1"]
+FAULTS["use-before-declaration-typed"] = ["ub2: int = later2", "later2: int = 1"]
+FAULTS["use-before-declaration-in-closure"] = ["ub3 = fn() -> int {", "\treturn later3", "}", "later3 = 1"]
+FAULTS["use-before-declaration-call"] = ["ub4 = later4()", "later4 = fn() -> int {", "\treturn 1", "}"]
+
 # index with a non-index, systematically: every container kind x every expression kind that is not a valid index for it
 # (literal, variable, non-constant expression) x read / store / op-assignment
 IDX_EXPRS = {"float-var": "fl", "float-lit": "1.5", "float-expr": "fl + 0.5", "str-var": "s", "str-lit": '"a"', "bool-var": "b", "byte-var": "by",
